@@ -33,7 +33,7 @@ EXPR = [
     ("SubscriptTrailingComma", "a[{E},]"), ("SubscriptSliceCompact", "a[1:2, ::3]"),
     ("Tuple", "({E}, {E2})"), ("Tuple1", "({E},)"), ("Tuple0", "()"), ("TupleStar", "(*{E}, {E2})"), ("TupleTrailing", "({E}, {E2},)"), ("List", "[{E}, {E2}]"), ("List0", "[]"), ("ListStar", "[*{E}, {E2}]"), ("ListTrailing", "[{E},]"),
     ("Set", "{{E}, {E2}}"), ("Set1", "{{E}}"), ("SetStar", "{{E}, *{E2}}"), ("SetStarFirst", "{*{E}, {E2}}"), ("Dict", "{{E}: {E2}}"), ("Dict0", "{}"), ("Dict2", "{{E}: 1, {E2}: 2}"), ("DictStar", "{**{E}, 'k': {E2}}"), ("DictStarLast", "{'k': {E}, **{E2}}"), ("DictTrailing", "{{E}: {E2},}"),
-    ("ListComp", "[{E} for x in {E2}]"), ("ListCompIf", "[{E} for x in {E2} if x]"), ("ListCompIf2", "[{E} for x in {E2} if x if a]"), ("ListComp2For", "[{E} for x in {E2} for y in x]"), ("ListCompTupleTarget", "[{E} for x, y in {E2}]"), ("ListCompStarTarget", "[{E} for x, *y in {E2}]"),
+    ("ListComp", "[{E} for x in {E2}]"), ("ListCompIf", "[{E} for x in {E2} if x]"), ("ListCompIf2", "[{E} for x in {E2} if x if a]"), ("ListCompIfIfFor", "[{E} for x in {E2} if x if a for y in x]"), ("ListCompIf3For2", "[{E} for x in {E2} if x if a if b for y in x if y for z in y]"), ("GenExpIfIfFor", "({E} for x in {E2} if x if a for y in x)"), ("DictCompIfIfFor", "{x: {E} for x in {E2} if x if a for y in x}"), ("ListComp2For", "[{E} for x in {E2} for y in x]"), ("ListCompTupleTarget", "[{E} for x, y in {E2}]"), ("ListCompStarTarget", "[{E} for x, *y in {E2}]"),
     ("ListCompParenTarget", "[{E} for (x, y) in {E2}]"), ("ListCompTernaryIter", "[{E} for x in (a if b else {E2})]"), ("ListCompLambdaCond", "[{E} for x in {E2} if (lambda: x)()]"), ("ListCompOrCond", "[{E} for x in {E2} if a or b]"),
     ("SetComp", "{{E} for x in {E2}}"), ("DictComp", "{x: {E} for x in {E2}}"), ("DictCompTuple", "{k: v for k, v in {E}}"), ("GenExp", "({E} for x in {E2})"), ("GenExpIf", "({E} for x in {E2} if x)"), ("CompNested", "[[{E} for x in a] for y in {E2}]"),
     ("CompAttrTarget", "[{E} for a.b in {E2}]"), ("CompSubTarget", "[{E} for a[0] in {E2}]"),
@@ -74,7 +74,8 @@ COMPOUND = [
     ("WithParenNoAs", "with ({E}, {E2}):\n{B}", ""), ("WithParenSingle", "with ({E}):\n{B}", ""), ("WithParenSingleAs", "with ({E}) as x:\n{B}", ""), ("WithParenMultiline", "with (\n    {E} as x,\n    {E2} as y,\n):\n{B}", ""), ("WithAsTuple", "with {E} as (x, y):\n{B}", ""), ("WithAsAttr", "with {E} as a.b:\n{B}", ""),
     ("AsyncWith", "async with {E} as x:\n{B}", "async"),
     ("TryExcept", "try:\n{B}\nexcept {E}:\n{B}", ""), ("TryExceptAs", "try:\n{B}\nexcept {E} as e:\n{B}", ""), ("TryBare", "try:\n{B}\nexcept:\n{B}", ""), ("TryFinally", "try:\n{B}\nfinally:\n{B}", ""), ("TryElse", "try:\n{B}\nexcept {E}:\n{B}\nelse:\n{B}", ""),
-    ("TryAll", "try:\n{B}\nexcept {E}:\n{B}\nexcept ({E2}, a) as e:\n{B}\nelse:\n{B}\nfinally:\n{B}", ""), ("TryStar", "try:\n{B}\nexcept* {E}:\n{B}", ""), ("TryStarAs", "try:\n{B}\nexcept* {E} as e:\n{B}", ""), ("TryExceptTuple", "try:\n{B}\nexcept ({E}, {E2}):\n{B}", ""),
+    ("TryAll", "try:\n{B}\nexcept {E}:\n{B}\nexcept ({E2}, a) as e:\n{B}\nelse:\n{B}\nfinally:\n{B}", ""), ("TryStar", "try:\n{B}\nexcept* {E}:\n{B}", ""), ("TryStarAs", "try:\n{B}\nexcept* {E} as e:\n{B}", ""), ("TryExceptTuple", "try:\n{B}\nexcept ({E}, {E2}):\n{B}", ""), ("TryStarElse", "try:\n{B}\nexcept* {E}:\n{B}\nelse:\n{B}", ""), ("TryStarFinally", "try:\n{B}\nexcept* {E}:\n{B}\nfinally:\n{B}", ""),
+    ("TryStarElseFinally", "try:\n{B}\nexcept* {E}:\n{B}\nelse:\n{B}\nfinally:\n{B}", ""), ("TryStarTwo", "try:\n{B}\nexcept* {E}:\n{B}\nexcept* ({E2}, a) as e:\n{B}\nelse:\n{B}\nfinally:\n{B}", ""), ("TryElseFinally", "try:\n{B}\nexcept {E}:\n{B}\nelse:\n{B}\nfinally:\n{B}", ""),
     ("Def", "def f():\n{B}", ""), ("DefArgs", "def f(a, b=1, *c, d, e=2, **k):\n{B}", ""), ("DefPosOnly", "def f(a, /, b):\n{B}", ""), ("DefPosOnlyDefault", "def f(a=1, /, b=2):\n{B}", ""), ("DefKwOnly", "def f(*, a):\n{B}", ""), ("DefKwOnlyDefault", "def f(*, a=1, b):\n{B}", ""),
     ("DefAnnot", "def f(a: int, b: str = 's') -> int:\n{B}", ""), ("DefAnnotStarArgs", "def f(a, *args: T, **kw: T):\n{B}", ""), ("DefAnnotStarUnpack", "def f(*args: *Ts):\n{B}", ""), ("DefReturnAnnot", "def f() -> list[int]:\n{B}", ""), ("DefDefaultExpr", "def f(a={E}, *, b={E2}):\n{B}", ""),
     ("DefDecorated", "@d\ndef f():\n{B}", ""), ("DefDecoratorCall", "@d.e(1, k=2)\ndef f():\n{B}", ""), ("DefDecoratorExpr", "@(d if a else e)\ndef f():\n{B}", ""), ("DefDecorators2", "@d\n@e\ndef f():\n{B}", ""), ("DefDecoratorSubscript", "@d[0]\ndef f():\n{B}", ""),
@@ -90,7 +91,7 @@ COMPOUND = [
 ]
 
 # layout variants applied to a rendered program (U3)
-LAYOUTS = ["plain", "no_final_newline", "crlf", "tab_indent", "two_space_indent", "eight_space_indent", "trailing_comment", "leading_comment", "blank_lines", "trailing_spaces", "paren_continuation", "backslash_continuation", "form_feed", "semicolon_end"]
+LAYOUTS = ["plain", "no_final_newline", "crlf", "tab_indent", "two_space_indent", "eight_space_indent", "trailing_comment", "leading_comment", "blank_lines", "trailing_spaces", "paren_continuation", "backslash_continuation", "form_feed", "semicolon_end", "col0_operator"]
 
 
 def _conv(t):
